@@ -94,6 +94,38 @@ def rerun_text(text, build, prop, channels, workdir):
     return finish_case(c, prop, channels, workdir)
 
 
+def derive_fault(text, impl_lines, cap):
+    """C13: from a base history, one variant per user-closure invocation of one stabilise: a panic is armed at
+    that invocation; afterwards reads, a stabilise, a write, another stabilise and the drop of everything."""
+    lines = text.rstrip("\n").split("\n")
+    is_def = lambda l: l.split()[0] in ("cfg", "maxheight", "fn", "fneff", "folddef", "proj", "old", "cut", "body", "hdl")
+    act_line_idx = [i for i, l in enumerate(lines) if not is_def(l)]
+    ch = engine.split_channels(impl_lines)
+    ticks = {}
+    for idx, payload in ch.get("ev", []):
+        if payload.startswith(("inv ", "cut ", "notif ")):
+            ticks[idx] = ticks.get(idx, 0) + 1
+    stabs = [a for a, li in enumerate(act_line_idx) if lines[li].strip() == "stabilise" and ticks.get(a, 0) > 0]
+    if not stabs:
+        return []
+    out = []
+    # the last stabilise with work, and one more picked by size
+    targets = {stabs[-1], stabs[len(stabs) // 2]}
+    has_var = any(l.startswith("var ") for l in lines) and not any(l.strip() == "dropvar v0" for l in lines) \
+        and not any(l.startswith("var (") for l in lines[:[i for i, l in enumerate(lines) if l.startswith("var ")][0] + 1])
+    for a in sorted(targets):
+        n = ticks[a]
+        ks = list(range(1, n + 1))
+        if len(ks) > cap:
+            step = len(ks) / cap
+            ks = sorted({ks[int(i * step)] for i in range(cap)} | {1, n})
+        for k in ks:
+            li = act_line_idx[a]
+            tail = ["stabilise"] + (["set v0 1"] if has_var else []) + ["stabilise", "dropall"]
+            out.append("\n".join(lines[:li] + [f"arm {k}"] + [lines[li]] + tail) + "\n")
+    return out
+
+
 def mechanism_exercised(prop, c):
     """Is the property's mechanism actually exercised by this history (for distinct_nontrivial)?"""
     impl = c.impl or []
@@ -105,6 +137,8 @@ def mechanism_exercised(prop, c):
         return has(" ev inv ")
     if prop == "C09":
         return has(" ev notif ")
+    if prop == "C13":
+        return has(" api panic user")
     if prop == "C19":
         return has(" ev inv ") or has(" api panic")
     if prop in ("C07", "C10"):
@@ -148,6 +182,20 @@ def run(chk, spec):
                 jobs.append((chk.seed * 1000003 + k, profile, b, prop, channels, spec.get("c01_safe", False), workdir))
             k += 1
     cases = engine.parallel(run_one, jobs)
+    if spec.get("derive") == "fault":
+        cap = 6 if chk.tier == "quick" else 40
+        variants = []
+        for c in cases:
+            if c.error or c.wf is not None:
+                continue
+            for v in derive_fault(c.text, c.impl, cap):
+                variants.append((v, c))
+        def run_variant(vc):
+            v, base = vc
+            r = rerun_text(v, base.build, prop, channels, workdir)
+            r.seed, r.profile, r.stats = base.seed, base.profile + "+fault", base.stats
+            return r
+        cases = engine.parallel(run_variant, variants)
     for name, text in corpus:
         for b in builds:
             c = rerun_text(text, b, prop, channels, workdir)
